@@ -77,7 +77,9 @@ def run (kv : List (String × String)) : IO Res := do
   let some cpuB ← readFile s!"{base}.cpuinfo" | return .bad "cpuinfo"
   if si.platform != 0x8201 then return .propfail s!"platform id {si.platform}" tags
   if si.arch != 9 then return .propfail s!"processor architecture {si.arch}" tags
-  match cpuInfoOf ((String.fromUTF8? cpuB).getD "").toList with
+  let cpufail := get kv "cpufail" == some "1"
+  if cpufail then tags := "sysinfo.cpufail" :: tags
+  match (if cpufail then none else cpuInfoOf ((String.fromUTF8? cpuB).getD "").toList) with
   | some (n, level, rev, vendor) =>
     if (si.ncpu, si.level, si.revision, si.vendor) != (n, level, rev, vendor) then
       return .propfail s!"system info (cpus {si.ncpu}, family {si.level}, revision {si.revision}, vendor {si.vendor}) ≠ /proc/cpuinfo ({n}, {level}, {rev}, {vendor})" tags
